@@ -415,7 +415,7 @@ func checkC06(c *runCtx) {
 		"pair ids: 'never reused within a generation' is checked against the harness's own id -> address-pair memo, reset at Restart / Failed")
 	p := newVTPool()
 	defer p.close()
-	dl := c01deadline(c, 150, 1500)
+	dl := c01deadline(c, 240, 1500)
 	depth := 6
 	if !c.quick() {
 		depth = 7
